@@ -110,7 +110,7 @@ class Oracle:
         if r["status"] == "timeout":
             # "does not return" is only believed when a second, much longer run does not return either
             # (a loaded machine must not turn a slow run into a non-termination verdict)
-            r2 = self._call(harness, cell, inputs, max(60, 8 * timeout))
+            r2 = self._call(harness, cell, inputs, max(30, 5 * timeout))
             if r2["status"] != "timeout":
                 r2["slow"] = True
             return r2
